@@ -129,3 +129,107 @@ class RotationStub:
         if self.single:
             raise TypeError("Single rotation has no len().")
         return len(self._m)
+
+
+# ---------------------------------------------------------------------------
+# which names are EXTERNAL dependencies (replaced by their assumed contracts during proofs)
+# ---------------------------------------------------------------------------
+EXTERNAL_NAMES = {
+    "Rotation": "scipy", "Slerp": "scipy", "RotationSpline": "scipy", "interp1d": "scipy", "CubicSpline": "scipy",
+    "CubicHermiteSpline": "scipy", "cholesky": "scipy", "cho_solve": "scipy", "solve_triangular": "scipy", "expm": "scipy",
+    "check_random_state": "scipy", "signal": "scipy", "np": "numpy", "pd": "pandas", "numba": "numba",
+}
+
+
+def _origin(obj):
+    mod = getattr(obj, "__module__", None)
+    if mod is None and hasattr(obj, "__name__") and hasattr(obj, "__file__") is False:
+        mod = getattr(obj, "__name__", "")
+    if isinstance(obj, type(_np)):
+        mod = obj.__name__
+    return mod or type(obj).__module__
+
+
+def _differential(name, ours):
+    """bounded differential test of a pyins-defined replacement against the external function whose contract the proofs
+    assume; returns a failing input or None.  Structured inputs: exact zeros in every pattern, ill-scaled entries."""
+    import itertools
+    import scipy.linalg as sl
+    rng = _np.random.RandomState(0)
+    try:
+        if name == "solve_triangular":
+            for m in (1, 2, 3, 4):
+                for trial in range(6):
+                    L = _np.tril(rng.randn(m, m)) + 2 * _np.eye(m)
+                    for zeros in itertools.product((0, 1), repeat=m):
+                        b = rng.randn(m) * _np.array(zeros)
+                        for lower in (True, False):
+                            A = L if lower else L.T
+                            want = sl.solve_triangular(A, b, lower=lower)
+                            got = ours(A, b, lower=lower)
+                            if not _np.allclose(got, want, rtol=1e-10, atol=1e-13):
+                                return dict(function=name, a=A.tolist(), b=b.tolist(), lower=lower, returned=_np.asarray(got).tolist(), scipy_returns=want.tolist())
+        elif name == "cholesky":
+            for m in (1, 2, 3, 5):
+                for trial in range(8):
+                    A = rng.randn(m, m + 2)
+                    S = A @ A.T + 1e-3 * _np.eye(m)
+                    for lower in (True, False):
+                        want = sl.cholesky(S, lower=lower)
+                        got = ours(S, lower=lower)
+                        if not _np.allclose(got, want, rtol=1e-10, atol=1e-13):
+                            return dict(function=name, a=S.tolist(), lower=lower, returned=_np.asarray(got).tolist(), scipy_returns=want.tolist())
+        elif name == "cho_solve":
+            for m in (1, 2, 3, 5):
+                for trial in range(8):
+                    A = rng.randn(m, m + 2)
+                    S = A @ A.T + 1e-3 * _np.eye(m)
+                    B = rng.randn(m, 3) * (rng.rand(m, 3) > 0.3)
+                    for lower in (True, False):
+                        c = sl.cholesky(S, lower=lower)
+                        want = sl.cho_solve((c, lower), B)
+                        got = ours((c, lower), B.copy())
+                        if not _np.allclose(got, want, rtol=1e-9, atol=1e-12):
+                            return dict(function=name, factor=c.tolist(), lower=lower, b=B.tolist(), returned=_np.asarray(got).tolist(), scipy_returns=want.tolist())
+        elif name == "expm":
+            for m in (1, 2, 4, 9):
+                for scale in (0.0, 1e-8, 1e-2, 1.0, 30.0):
+                    A = rng.randn(m, m) * scale
+                    want = sl.expm(A)
+                    got = ours(A)
+                    if not _np.allclose(got, want, rtol=1e-9, atol=1e-12 * max(1.0, float(_np.max(_np.abs(want))))):
+                        return dict(function=name, a=A.tolist(), returned=_np.asarray(got).tolist(), scipy_returns=want.tolist())
+        else:
+            return "no-test"
+    except Exception as exc:
+        return dict(function=name, raised=repr(exc))
+    return None
+
+
+def external_binding_obligations(ctx, py, prefix, modules):
+    """The proofs replace scipy / numpy functions by their documented contracts.  That is only legitimate while the name in the
+    pyins module really is the external function: if a module rebinds it to code of its own, that code is part of /repo,
+    the assumed contract is no longer known to apply, and the obligation becomes a bounded differential test against the
+    external function (violation with its input if they differ, undecided otherwise)."""
+    from .loader import MODULES
+    for m in MODULES:
+        if m not in modules:
+            continue
+        mod = getattr(py, m)
+        for name, lib in EXTERNAL_NAMES.items():
+            if name not in mod.__dict__:
+                continue
+            obj = mod.__dict__[name]
+            org = _origin(obj) or ""
+            if org.split(".")[0] in ("scipy", "numpy", "pandas", "numba"):
+                continue
+            # rebound to something that is not the library's
+            res = _differential(name, obj)
+            if isinstance(res, dict):
+                ctx.ob("%s.deps.%s.%s" % (prefix, m, name), "c", False, "bounded differential test against the external function", 0.0,
+                       "%s.%s is not %s's (%s) and does not meet the contract the proof assumes for it" % (m, name, lib, org), cex=res,
+                       native=dict(reproduced=True, **res))
+            else:
+                ctx.ob("%s.deps.%s.%s" % (prefix, m, name), "c", None, "origin-of-binding", 0.0,
+                       "%s.%s is bound to %s, not to %s's function: the contract assumed for it in the proofs is not established "
+                       "(%s)" % (m, name, org, lib, "bounded differential test found no difference" if res is None else "no differential test for this name"))
